@@ -113,7 +113,8 @@ var specs = map[string]mspec{
 	"M.Sentinel": {nil, false, false},
 }
 
-var aliases = map[string]string{"Alias.Value": "M.Value", "short": "M.Pair"}
+// "dangling" is an alias whose target is not registered: it must be rejected as -32601
+var aliases = map[string]string{"Alias.Value": "M.Value", "short": "M.Pair", "dangling": "M.Gone"}
 
 const (
 	oResult = iota
@@ -733,6 +734,7 @@ var alphabet = []letter{
 	fixedID("14-id-invalid", "id-object", "{}", "M.Value", tokParams("")),
 	call("15-alias", "alias", "Alias.Value", tokParams("")),
 	call("15-alias", "alias-short", "short", tokParams("")),
+	call("15-alias", "alias-dangling", "dangling", tokParams("")),
 }
 
 // layout renders a list of elements as a body. batch=false requires one element.
@@ -817,16 +819,31 @@ func (h *harness) evalHTTP(class, desc string, body []byte) {
 		h.m.take()
 		var reply []byte
 		scenario, extra := "handle-request", ""
-		if tr == "ServeHTTP" {
-			scenario = "http-" + suffix
-			rec := httptest.NewRecorder()
-			h.srv.ServeHTTP(rec, httptest.NewRequest("POST", "/rpc", bytes.NewReader(body)))
-			reply = rec.Body.Bytes()
-			extra = fmt.Sprintf(" status=%d", rec.Code)
-		} else {
-			var out bytes.Buffer
-			h.srv.HandleRequest(context.Background(), bytes.NewReader(body), &out)
-			reply = out.Bytes()
+		// a panic that escapes the server entry point is a finding about this body, not a reason
+		// to lose the whole run
+		panicked := ""
+		func() {
+			defer func() {
+				if r := recover(); r != nil {
+					panicked = fmt.Sprint(r)
+				}
+			}()
+			if tr == "ServeHTTP" {
+				scenario = "http-" + suffix
+				rec := httptest.NewRecorder()
+				defer func() { reply = rec.Body.Bytes(); extra = fmt.Sprintf(" status=%d", rec.Code) }()
+				h.srv.ServeHTTP(rec, httptest.NewRequest("POST", "/rpc", bytes.NewReader(body)))
+			} else {
+				var out bytes.Buffer
+				defer func() { reply = out.Bytes() }()
+				h.srv.HandleRequest(context.Background(), bytes.NewReader(body), &out)
+			}
+		}()
+		if panicked != "" {
+			h.m.take()
+			h.c.Case(tr+"|"+desc, true, class)
+			h.c.Violate(scenario, map[string]interface{}{"body": string(body)}, "C09 transport=%s scenario=%s clause=server-entry-point-panicked shape=%s case=%s body=%q reply=%q: panic: %s", tr, scenario, shape, desc, body, reply, panicked)
+			continue
 		}
 		runs := h.m.take()
 		fs := judgeHTTP(exp, reply, runs)
@@ -1011,27 +1028,6 @@ func TestC09(t *testing.T) {
 		}
 	}
 
-	// ---- 5. single elements as WebSocket frames ----
-	ts := httptest.NewServer(srv)
-	d := &wsDrv{h: h, url: "ws" + strings.TrimPrefix(ts.URL, "http")}
-	d.dial()
-	wsN := 0
-	for _, l := range alphabet {
-		idset := []string{""}
-		if l.needID {
-			idset = ids
-		}
-		for _, id := range idset {
-			for _, ws := range []int{0, 3} {
-				wsN++
-				frame := layout([]string{l.build(id, fmt.Sprintf("w%d", wsN))}, false, ws)
-				d.eval("ws/"+l.kind, fmt.Sprintf("ws/%s/id=%s/ws%d", l.name, id, ws), []byte(frame))
-			}
-		}
-	}
-	_ = d.conn.Close()
-	ts.Close()
-
 	// ---- 6. every batch of length 1..maxLen over the alphabet ----
 	// ids: length 1 takes every id; length 2 takes 9 rotations (position p gets ids[(r+4p)%9]);
 	// length 3 takes the rotation r = (sum of letter indices)%9, so that over the enumeration every
@@ -1099,6 +1095,33 @@ func TestC09(t *testing.T) {
 			t.Logf("CLASS %-70s n=%d\n    first: %s", k, h.counts[k], h.first[k])
 		}
 	}
+	// Checkpoint: a request that makes a per-call goroutine of the WebSocket server panic kills
+	// this process (that is C10's subject and is isolated there); what the HTTP phases found
+	// must not be lost with it, so the report is written once before the WebSocket phase.
+	c.Write(t, false, "checkpoint before the WebSocket phase (the process died during that phase if this is the final report)")
+
+	// ---- 5. single elements as WebSocket frames ----
+	ts := httptest.NewServer(srv)
+	d := &wsDrv{h: h, url: "ws" + strings.TrimPrefix(ts.URL, "http")}
+	d.dial()
+	wsN := 0
+	for _, l := range alphabet {
+		idset := []string{""}
+		if l.needID {
+			idset = ids
+		}
+		for _, id := range idset {
+			for _, ws := range []int{0, 3} {
+				wsN++
+				frame := layout([]string{l.build(id, fmt.Sprintf("w%d", wsN))}, false, ws)
+				d.eval("ws/"+l.kind, fmt.Sprintf("ws/%s/id=%s/ws%d", l.name, id, ws), []byte(frame))
+			}
+		}
+	}
+	_ = d.conn.Close()
+	ts.Close()
+
+
 	c.Write(t, true, fmt.Sprintf("alphabet of %d concrete request elements (15 kinds of DESIGN C09 with their variants); every single element x 9 ids "+
 		"{0,1,-1,1.5,2^53,1e2,\"\",\"a\",\"1\"} x 4 whitespace layouts; 13 degenerate bodies; every proper prefix of 3 valid bodies; 8 valid bodies followed by extra bytes; "+
 		"every batch of length 1..%d over the alphabet x 4 whitespace layouts (length 1: every id; length 2: 9 id rotations; length 3: one rotation chosen by the letter indices so every letter "+
